@@ -30,6 +30,7 @@ def run(check: Check, repo: Repo, tier: str) -> None:
     T.graph_owners(check, repo)
     T.error_keeps_items(check, repo)
     T.pump_pacing(check, repo)
+    T.prune_undelivered(check, repo)
     T.drain_guarded(check, repo)
     from rules import exec_rules as X
 
